@@ -73,8 +73,15 @@ type fakeNotifier struct {
 	sigs []os.Signal
 }
 
-func (n *fakeNotifier) Notify(c chan<- os.Signal, sig ...os.Signal) { n.c, n.sigs = c, sig }
-func (n *fakeNotifier) Stop(chan<- os.Signal)                       {}
+// Notify keeps a copy of the subscription and then overwrites its argument: the variadic slice belongs to the callee,
+// a library that hands out its own list of shutdown signals there loses it.
+func (n *fakeNotifier) Notify(c chan<- os.Signal, sig ...os.Signal) {
+	n.c, n.sigs = c, slices.Clone(sig)
+	for i := range sig {
+		sig[i] = syscall.SIGHUP
+	}
+}
+func (n *fakeNotifier) Stop(chan<- os.Signal) {}
 
 type svc struct {
 	idx     int
@@ -355,6 +362,9 @@ type fakeRefresher struct {
 	ctxs     []context.Context
 	parkAt   int // index of the refresh that waits on gate (-1: none)
 	gate     chan struct{}
+	// startCancelled: the scenario cancelled the context given to Start (refresh contexts derived from it are
+	// then done from the beginning; the refreshes must happen all the same)
+	startCancelled bool
 }
 
 func (f *fakeRefresher) Refresh(ctx context.Context) error {
@@ -371,7 +381,7 @@ func (f *fakeRefresher) Refresh(ctx context.Context) error {
 		return err
 	}
 	f.n++
-	if ctx.Err() != nil {
+	if ctx.Err() != nil && !f.startCancelled {
 		f.log.add("refresh got a context that is already done")
 	}
 	return err
@@ -422,7 +432,8 @@ func runRefresh(c refCase) (what string, checks int) {
 		} else {
 			outcomes = append(outcomes, nil)
 		}
-		startCtx := context.WithValue(context.Background(), "which", "start")
+		startCtx, cancelStart := context.WithCancel(context.WithValue(context.Background(), "which", "start"))
+		defer cancelStart()
 		clock := &fakeClock{log: log, now: time.Unix(1000, 0)}
 		sched := &fakeSchedule{log: log, zero: c.ZeroDelays}
 		cons := &fakeCons{log: log, parent: startCtx}
@@ -444,6 +455,13 @@ func runRefresh(c refCase) (what string, checks int) {
 			return
 		}
 		synctest.Wait()
+		if len(c.Ticks)%3 == 2 {
+			// the usual start-up pattern: Start under a timeout context that is cancelled once everything runs.
+			// Only Shutdown ends the refresh loop.
+			refr.startCancelled = true
+			cancelStart()
+			synctest.Wait()
+		}
 		// The log is checked segment by segment (one segment per injected
 		// event) against the trace specification of the statement: per
 		// refresh exactly one context from the constructor, used by exactly
